@@ -98,8 +98,8 @@ Qed.
 (* clause 6 implies clause 3 *)
 Lemma csum_kept_floweq inp tw out : csum_kept_ok inp tw out = true -> floweq_ok inp tw out = true.
 Proof.
-  unfold csum_kept_ok, floweq_ok, floweq_gen. fold canon. intros H. apply perm_eqb_sound in H.
-  apply (Permutation_map (@tl N)) in H. rewrite !map_map in H. cbn [canonv tl] in H.
+  unfold csum_kept_ok, csum_kept_gen, floweq_ok, floweq_gen. fold canon. intros H. apply perm_eqb_sound in H.
+  apply (Permutation_map (fun l => tl (tl l))) in H. rewrite !map_map in H. cbn [canonv_gen tl] in H.
   apply perm_eqb_complete. exact H.
 Qed.
 Theorem holdsb_clauses inp tw out :
@@ -108,7 +108,7 @@ Theorem holdsb_clauses inp tw out :
 Proof.
   assert (E : holdsb inp tw out = bookkeeping_ok inp tw out && passthrough_ok inp tw out
                       && udp_order_ok inp tw out && headers_valid_ok tw out && csum_kept_ok inp tw out).
-  { unfold holdsb, csum_kept_ok, bookkeeping_ok, udp_order_ok, udp_order_gen, udp_order_segs, headers_valid_ok,
+  { unfold holdsb, csum_kept_ok, csum_kept_gen, canonv, bookkeeping_ok, udp_order_ok, udp_order_gen, udp_order_segs, headers_valid_ok,
       descriptors_ok, lengths_all_ok, checksums_ok, gso_buffers, segments. cbv zeta.
     rewrite csums_ok2_eq, <- flat_map_concat_map. reflexivity. }
   rewrite E. destruct (csum_kept_ok inp tw out) eqn:K; [|rewrite !andb_false_r; reflexivity].
